@@ -462,6 +462,82 @@ impl World {
 }
 
 impl World {
+    /// C09, the mutating paths that the replicas of the scenario do not take themselves: on a private AutoCommit copy
+    /// of replica r (incremental patch index on) - local edits through AutoCommit, a rolled-back transaction, a sync
+    /// session with a copy of replica s, isolate(H) / edits inside / integrate(), and a load with a patch log.
+    /// Every step logs {"ev":"ptrans","kind",..,"v1","patches","v2"}: the patches must turn v1 into v2.
+    pub fn probe_patch_paths(&mut self, r: usize, s: usize, iso_heads: &[ChangeHash], rng: &mut Rng, prof: &Profile) {
+        use automerge::sync::SyncDoc;
+        let enc_ = self.enc;
+        let bytes = self.reps[r].save();
+        let peer_bytes = self.reps[s].save();
+        let seed = rng.next();
+        let prof = prof.clone();
+        let iso_heads = iso_heads.to_vec();
+        let out = catch_unwind(AssertUnwindSafe(|| {
+            let mut rng = Rng::new(seed);
+            let mut evs: Vec<J> = vec![];
+            let opts = || LoadOptions::new().text_encoding(enc_);
+            let mut ac = match automerge::AutoCommit::load_with_options(&bytes, opts()) {
+                Ok(a) => a.with_actor(enc::actor_from_num(60 + r as u8)),
+                Err(_) => return evs,
+            };
+            ac.update_diff_cursor();
+            let done_calls: std::cell::RefCell<Vec<J>> = std::cell::RefCell::new(vec![]);
+            let mut step = |ac: &mut automerge::AutoCommit, kind: &str, rng: &mut Rng, f: &mut dyn FnMut(&mut automerge::AutoCommit, &mut Rng)| {
+                let v1 = proj::view(ac, None);
+                done_calls.borrow_mut().clear();
+                f(ac, rng);
+                let patches = ac.diff_incremental();
+                let v2 = proj::view(ac, None);
+                json!({"ev":"ptrans","kind":kind,"r":r+1,"res":"ok","v1":v1,"patches":crate::patchx::patches_json(&patches),"v2":v2,
+                       "calls": J::Array(done_calls.borrow().clone())})
+            };
+            let mut edits = |ac: &mut automerge::AutoCommit, rng: &mut Rng| {
+                for _ in 0..1 + rng.below(3) {
+                    let v = proj::view(ac, None);
+                    let call = calls::gen(rng, &v, &prof);
+                    let out = calls::exec(ac, &call);
+                    let mut rec = call.clone();
+                    rec["res"] = out["res"].clone();
+                    rec["before"] = v;
+                    done_calls.borrow_mut().push(rec);
+                }
+            };
+            evs.push(step(&mut ac, "autocommit-edits", &mut rng, &mut |ac, rng| { edits(ac, rng); ac.commit_with(CommitOptions::default().with_time(0)); }));
+            evs.push(step(&mut ac, "rollback", &mut rng, &mut |ac, rng| { edits(ac, rng); ac.rollback(); }));
+            evs.push(step(&mut ac, "sync-receive", &mut rng, &mut |ac, _| {
+                if let Ok(mut peer) = automerge::AutoCommit::load_with_options(&peer_bytes, LoadOptions::new().text_encoding(enc_)) {
+                    let (mut sa, mut sb) = (automerge::sync::State::new(), automerge::sync::State::new());
+                    for _ in 0..10 {
+                        let mut quiet = true;
+                        if let Some(m) = ac.sync().generate_sync_message(&mut sa) { quiet = false; let _ = peer.sync().receive_sync_message(&mut sb, m); }
+                        if let Some(m) = peer.sync().generate_sync_message(&mut sb) { quiet = false; let _ = ac.sync().receive_sync_message(&mut sa, m); }
+                        if quiet { break; }
+                    }
+                }
+            }));
+            if !iso_heads.is_empty() {
+                evs.push(step(&mut ac, "isolate", &mut rng, &mut |ac, _| ac.isolate(&iso_heads)));
+                evs.push(step(&mut ac, "isolated-edits", &mut rng, &mut |ac, rng| { edits(ac, rng); ac.commit_with(CommitOptions::default().with_time(0)); }));
+                evs.push(step(&mut ac, "integrate", &mut rng, &mut |ac, _| ac.integrate()));
+            }
+            // load with a patch log: the patches build the document from nothing
+            let saved = ac.save();
+            let mut plog = PatchLog::active();
+            if let Ok(d) = Automerge::load_with_options(&saved, LoadOptions::new().text_encoding(enc_).patch_log(&mut plog)) {
+                let patches = d.make_patches(&mut plog);
+                evs.push(json!({"ev":"ptrans","kind":"load-with-patch-log","r":r+1,"res":"ok","v1":proj::view(&Automerge::new_with_encoding(enc_), None),
+                                "patches":crate::patchx::patches_json(&patches),"v2":proj::view(&d, None)}));
+            }
+            evs
+        }));
+        match out {
+            Ok(evs) => self.log.extend(evs),
+            Err(p) => self.log.push(json!({"ev":"ptrans","kind":"panic","r":r+1,"res":panic_msg(p)})),
+        }
+    }
+
     /// get_changes(have) probe, with digest of the bytes of every returned change and the
     /// check that the hash is the SHA-256 of the chunk (bytes after magic+checksum).
     pub fn probe_getchanges(&mut self, r: usize, have: &[ChangeHash]) {
